@@ -134,6 +134,8 @@ class FnOrder:
                 return None
             if isinstance(e.func, ast.Attribute) and e.func.attr in ("items", "keys", "values", "copy"):
                 return self.set_or_tainted(e.func.value)
+            if isinstance(e.func, ast.Attribute) and e.func.attr == "fromkeys" and e.args:
+                return self.set_or_tainted(e.args[0])
             callees, _ = self.oa.cg.resolve_call(self.fn, e)
             for c in callees:
                 if c in self.oa.tainted_returns:
@@ -1099,4 +1101,57 @@ def ord4(ctx) -> List[Ob]:
                         out.append(bad("ORD-4", c.name, key, f"{c.module.relpath}:{A.lineno(f.annotation)}", f"set field whose elements cannot be hashed: {r}"))
                     else:
                         out.append(ok("ORD-4", c.name, key, f"{c.module.relpath}:{A.lineno(f.annotation)}", "element type is hashable"))
+    return out
+
+
+MEMO_DECORATORS = {"lru_cache", "cache", "cached_property", "memoize", "memoized"}
+
+
+@rule("ORD-5", 10, "no result depends on the history of the process: no memoisation of graph-building functions and no mutable default argument shared between calls")
+def ord5(ctx) -> List[Ob]:
+    out: List[Ob] = []
+    prog, typer = ctx.prog, ctx.typer
+    for fn in prog.functions:
+        key = "function " + fn.qualname
+        where = ctx.where(fn)
+        probs = []
+        for d in fn.node.decorator_list:  # type: ignore[attr-defined]
+            de = d.func if isinstance(d, ast.Call) else d
+            dn = de.attr if isinstance(de, ast.Attribute) else (de.id if isinstance(de, ast.Name) else "")
+            if dn in MEMO_DECORATORS:
+                probs.append(f"is memoised with @{dn}: later calls return the object built (and since mutated) by the first call")
+        args = fn.node.args  # type: ignore[attr-defined]
+        defaults = list(args.defaults) + [d for d in args.kw_defaults if d is not None]
+        for d in defaults:
+            mutable = None
+            if isinstance(d, (ast.List, ast.Dict, ast.Set, ast.ListComp, ast.DictComp, ast.SetComp)):
+                mutable = "a mutable display"
+            elif isinstance(d, ast.Call):
+                t = typer.type_of(d, {}, fn)
+                dn = (A.dotted(d.func) or "").split(".")[-1]
+                if dn in ("tuple", "frozenset", "str", "int", "float", "bool"):
+                    mutable = None
+                elif t[0] in ("cls", "set", "list", "dict") or (dn[:1].isupper()) or dn in ("set", "list", "dict", "deque", "defaultdict"):
+                    mutable = f"an object built once at definition time ({A.unparse(d)[:30]})"
+            if mutable:
+                probs.append(f"has a default argument that is {mutable}: shared by every call of the process")
+        if probs:
+            out.append(bad("ORD-5", fn.qualname, key, where, f"{fn.qualname} " + "; ".join(probs)))
+        else:
+            out.append(ok("ORD-5", fn.qualname, key, where, "no memoisation, no mutable default", nontrivial=False))
+    # module-level caches: a module constant that is a mutable container mutated from a function
+    for m in prog.modules.values():
+        for name, val in m.constants.items():
+            if isinstance(val, (ast.Dict, ast.List, ast.Set)) or (isinstance(val, ast.Call) and (A.dotted(val.func) or "") in ("dict", "list", "set", "defaultdict")):
+                writers = []
+                for fn in prog.functions:
+                    if fn.module is not m:
+                        continue
+                    for n in A.walk_no_nested(fn.node):
+                        if isinstance(n, ast.Assign) and any(isinstance(t, ast.Subscript) and A.unparse(t.value) == name for t in n.targets):
+                            writers.append(fn.qualname)
+                        if isinstance(n, ast.Call) and isinstance(n.func, ast.Attribute) and A.unparse(n.func.value) == name and n.func.attr in ("append", "add", "update", "setdefault", "extend", "pop"):
+                            writers.append(fn.qualname)
+                if writers:
+                    out.append(bad("ORD-5", "<module>", f"module-level mutable {name}", f"{m.relpath}:{A.lineno(val)}", f"module-level container {name} is mutated by {sorted(set(writers))}: state carried from one call to the next"))
     return out
